@@ -1,6 +1,6 @@
 /-! The conversion statements of producer_sf.go and producer_nflegacy.go that the hand-written models
     `Goflow/Producer/Sflow.lean` and `Goflow/Producer/Legacy.lean` were written from, frozen as text (tree with the `fix:` commits up to
-    366aae4). `Proofs/C09.lean conversion_source_matches` and `Proofs/C08.lean legacy_source_matches` compare them with what
+    26dd617). `Proofs/C09.lean conversion_source_matches` and `Proofs/C08.lean legacy_source_matches` compare them with what
     /verif/extract reads from the source now: an edit of any of these statements breaks the equality, and the check then searches for
     a failing input with the sFlow / v5 generators. Not generated: edit by hand together with the model. -/
 namespace Goflow.Snapshot
@@ -47,6 +47,7 @@ def sflowMessageCases : List (String × String) := [
 
 def sflowHeaderStmts : List String := [
   "data := (*sampledHeader).HeaderData",
+  "if n := int((*sampledHeader).OriginalLength); n < len(data) { data = data[:n] }",
   "switch (*sampledHeader).Protocol { case 1: if config == nil { config = DefaultEnvironment } if err := config.ParsePacket(flowMessage, data); err != nil { return err } }",
   "return nil"
 ]
